@@ -175,7 +175,7 @@ def judge_postcheck(case, impl):
 def cases(rng, tier):
     return S.gen_cases(rng, tier, 500 if tier == "quick" else 6000, immutable=False) \
         + postcheck_cases(rng, 300 if tier == "quick" else 5000) + W.cases() + S.immhook_cases() \
-        + S.gen_cases_ext(rng, tier, 350 if tier == "quick" else 4000, immutable=False)
+        + S.gen_cases_ext(rng, tier, 350 if tier == "quick" else 4000, immutable=False) + S.headmin_cases()
 
 
 def search_cases(rng, tier):
@@ -245,8 +245,8 @@ def judge(case, impl, model):
                               f"{json.dumps(op)[:200]} succeeded and left the instance invalid: " + json.dumps(st["state"])[:300]))
             # the class's own __validate__ hook (generated: raises when a listed field holds a listed value) must accept
             # the state every successful operation leaves behind
-            held = _hook_rejects(case.get("hook"), st["state"], case.get("hookNeed"))
-            if held and not _hook_rejects(case.get("hook"), prev, case.get("hookNeed")):
+            held = _hook_rejects(case.get("hook"), st["state"], case.get("hookNeed"), case.get("hookHeadMin"))
+            if held and not _hook_rejects(case.get("hook"), prev, case.get("hookNeed"), case.get("hookHeadMin")):
                 fails.append((f"unvalidated:hook:{site}",
                               f"{json.dumps(op)[:200]} succeeded although the class's __validate__ hook rejects the resulting instance "
                               f"({held[0]} == {json.dumps(held[1])[:80]}): " + json.dumps(st["state"])[:300]))
@@ -277,7 +277,15 @@ def _no_such_method(site):
     return kind in tbl and m not in tbl[kind]
 
 
-def _hook_rejects(hooks, state, need=None):
+def _hook_rejects(hooks, state, need=None, head_min=None):
+    for f in head_min or []:
+        for k, cur in state["o"][1]:
+            if k == f and isinstance(cur, dict) and not S._wire_head_min_ok(cur):
+                return (f, "<the first element is not the smallest>")
+    return _hook_rejects0(hooks, state, need)
+
+
+def _hook_rejects0(hooks, state, need=None):
     for f, v in hooks or []:
         for k, cur in state["o"][1]:
             if k == f and cur is not None and dump.canon(cur) == dump.canon(v):
